@@ -1,6 +1,7 @@
 //! verif-harness: drives the real rs-matter code for the model-based checks in /verif.
 mod c04;
 mod c05;
+mod c09;
 mod c12;
 mod c13;
 mod c16;
@@ -8,6 +9,7 @@ mod c18;
 mod c19;
 mod sim;
 mod util;
+mod world;
 
 fn main() {
     let args: Vec<String> = std::env::args().collect();
@@ -20,6 +22,7 @@ fn main() {
         .spawn(move || match cmdc.as_str() {
             "c04" => c04::run(&a[2..]),
             "c05" => c05::run(&a[2..]),
+            "c09" => c09::run(&a[2..]),
             "c12" => c12::run(&a[2..]),
             "c13" => c13::run(&a[2..]),
             "c16" => c16::run(&a[2..]),
